@@ -106,6 +106,16 @@ class ExcVal:
         return f'<ExcVal {self.cls.__name__}>'
 
 
+class Quot:
+    """symbolic integer / concrete number (true division): an opaque real value, only its numerator and denominator are known"""
+
+    def __init__(self, num, den):
+        self.num, self.den = num, den
+
+    def __repr__(self):
+        return f'<Quot {self.num}/{self.den}>'
+
+
 class SymStr:
     """opaque text value; only identity, ghost utf-8 length and ghost utf-8 bytes are known"""
 
